@@ -101,6 +101,14 @@ CLAIMED = {
             "is the identity incl. order; balance = recount of the head's unspent outputs over wallet keys; save_wallet under a crash before any "
             "file operation with eager and buffered writes leaves the complete old or new file (replayed with a real process death on a real directory).",
             "Key bytes / annotation texts concrete (json, hexlify are C/regex code); in-memory file system model for the symbolic run.", "DESIGN.md 4/C15"),
+    "C08": ("CrossHair symbolic execution of BlockStore write/flush/read + read_chain_from_disk on a relational stand-in for sqlite3 (schema parsed from the repo's DDL), differentially validated against real sqlite3 every run",
+            "Solver verdict for trees of <= 3 (thorough 4) blocks above genesis, all flush batchings (n <= 2) / batched vs one-by-one (n = 3), "
+            "case-split extra transactions (pending spend, a conflicting spend on the other fork, a spend of the parent's reward inside one batch) "
+            "and symbolic rewards of two same-height blocks, two tie orders: read-back == written (ids, bytes, transaction ids), parents first, "
+            "rebuilt ledger identical per block, same head height. Known finding F2 (transaction id shared by two stored blocks) is reported as "
+            "KNOWN-FINDING and excluded by an added assumption.",
+            "SQLite replaced by a relational model of the statements the store issues (agreement with real sqlite3 checked on 27 scenarios per "
+            "run; replays use real SQLite); LRO ids.", "DESIGN.md 4/C08"),
 }
 
 NOT_YET = "not claimed yet in this revision of /verif: the check is still being built (see DESIGN.md section 4 for the planned decision procedure)"
